@@ -808,8 +808,10 @@ func giant(c *Ctx) {
 // rle_decode_frame (op rle_decode_fi) for FrameInfo values outside the accepted domain:
 // BitsAllocated 0 (uint16 wrap: 8192 bytes per sample), odd bit counts, SamplesPerPixel 0..16,
 // PlanarConfiguration 0..3, zero dimensions, and sizes beyond makeslice's limit (panic).
-// Only frame sizes <= 64 MiB or > 2^48 are generated (in between the Go runtime would
-// really try to allocate). Correspondence only; the property itself says nothing here.
+// Since the C08/C17 fixes decodeFrame checks the description and the stream's segment count
+// before allocating, so none of these can panic or allocate much any more; the generator still
+// avoids sizes between 64 MiB and 2^48 in case that regresses. Encode with the same description
+// is compared too (op rle_encode_fi). Correspondence only.
 func arbitraryFrameInfo(c *Ctx) {
 	if !c.HasModel() {
 		return
@@ -887,5 +889,33 @@ func arbitraryFrameInfo(c *Ctx) {
 		m := c.M.Call("rle_decode_fi", fmt.Sprint(k.rows), fmt.Sprint(k.cols), fmt.Sprint(k.bits), fmt.Sprint(k.spp), fmt.Sprint(k.planar), Hex(k.stream))
 		c.CorrEq("rle_decode_frameinfo", fmt.Sprintf("rle:decode-fi:bits=%d:spp=%d:planar=%d", k.bits, k.spp, k.planar), m, outcomeStr(class, out),
 			map[string]interface{}{"rows": k.rows, "cols": k.cols, "bitsAllocated": k.bits, "spp": k.spp, "planar": k.planar, "stream": clipHex(k.stream), "stream_kind": k.what})
+		// encodeFrame with the same description on a small source frame (the stream bytes serve as pixels)
+		if int(uint16(uint16(k.bits-1)/8+1))*k.spp*k.rows*k.cols <= 1<<20 {
+			srcb := k.stream
+			if len(srcb) > 4096 {
+				srcb = srcb[:4096]
+			}
+			var eout []byte
+			var eerr error
+			eclass := "ok"
+			p2, _ := Safely(func() {
+				src := codec.NewTestPixelData(fi)
+				_ = src.AddFrame(srcb)
+				dst := codec.NewTestPixelData(fi)
+				eerr = rlecodec.NewRLECodec().Encode(src, dst, nil)
+				if eerr == nil {
+					eout, _ = dst.GetFrame(0)
+				}
+			})
+			if p2 {
+				eclass = "panic"
+			} else if eerr != nil {
+				eclass = "err"
+			}
+			c.R.Case(fmt.Sprintf("rle:fi-enc:%d", i), false, "rle.fi-enc."+eclass)
+			em := c.M.Call("rle_encode_fi", fmt.Sprint(k.rows), fmt.Sprint(k.cols), fmt.Sprint(k.bits), fmt.Sprint(k.spp), fmt.Sprint(k.planar), Hex(srcb))
+			c.CorrEq("rle_encode_frameinfo", fmt.Sprintf("rle:encode-fi:bits=%d:spp=%d:planar=%d", k.bits, k.spp, k.planar), em, outcomeStr(eclass, eout),
+				map[string]interface{}{"rows": k.rows, "cols": k.cols, "bitsAllocated": k.bits, "spp": k.spp, "planar": k.planar, "frame": clipHex(srcb)})
+		}
 	})
 }
